@@ -71,3 +71,41 @@ Qed.
    from_graph computes *)
 Lemma exponents_match (sum_w halfDL : R) : (sum_w - halfDL) + halfDL = sum_w.
 Proof. ring. Qed.
+
+(* C01 (T3, pointwise): weight x proposal density of (lambda, q) x Jacobian of the momentum map
+   x dlambda/dt = (I_tr / prod Gamma(nu)) x Schwinger integrand t^(S-1) exp(-t A) at t = lambda/V.
+   a = D/2, w = omega, S = w + a L = sum of the weights (T2), A = sum_e x_e (|q_e|^2 + m_e^2)
+   = V (1 + Q2/(2 lambda)) (T1, the energy identity, Q2 = |q|^2); G_w = Gamma(omega),
+   PG = prod Gamma(nu_e) are arbitrary positive numbers (they cancel). *)
+Theorem weight_times_density (Itr Gw PG U V lam Q2 a w : R) (L : nat) :
+  0 < Itr -> 0 < Gw -> 0 < PG -> 0 < U -> 0 < V -> 0 < lam ->
+  let C := Itr * Gw / PG * Rpower PI (a * INR L) in
+  let jac := Rpower (1 / U) a * Rpower (1 / V) w * C in
+  let gamma_density := Rpower lam (w - 1) * exp (- lam) / Gw in
+  let gauss_density := Rpower (2 * PI) (- (a * INR L)) * exp (- Q2 / 2) in
+  let map_jacobian := Rpower (2 * lam / V) (a * INR L) * Rpower U a in
+  let A := V * (1 + Q2 / (2 * lam)) in
+  let t := lam / V in
+  jac * gamma_density * gauss_density * map_jacobian * V =
+  Itr / PG * (Rpower t (w + a * INR L - 1) * exp (- (t * A))).
+Proof.
+  intros HI HG HP HU HV Hl C jac gd gs mj A t.
+  assert (Hpi : 0 < PI) by apply PI_RGT_0.
+  assert (Ht : 0 < t) by (apply Rdiv_lt_0_compat; assumption).
+  assert (H2l : 0 < 2 * lam / V) by (apply Rdiv_lt_0_compat; lra).
+  assert (HtA : t * A = lam + Q2 / 2) by (unfold t, A; field; lra).
+  apply eq_by_ln.
+  - unfold jac, gd, gs, mj, C.
+    repeat apply Rmult_lt_0_compat; try apply Rpower_pos; try apply exp_pos; try assumption;
+      try (apply Rinv_0_lt_compat; assumption).
+  - repeat apply Rmult_lt_0_compat; try apply Rpower_pos; try apply exp_pos; try assumption;
+      try (apply Rinv_0_lt_compat; assumption).
+  - unfold jac, gd, gs, mj, C, Rdiv.
+    repeat (rewrite ln_mult; [|repeat apply Rmult_lt_0_compat; try apply Rpower_pos; try apply exp_pos;
+                                 try assumption; try (apply Rinv_0_lt_compat; assumption); try lra..]).
+    rewrite !ln_Rpower, !ln_exp, !ln_Rinv by (try assumption; lra).
+    rewrite (ln_mult 1 (/ U)), (ln_mult 1 (/ V)), ln_1, !ln_Rinv by (try lra; try (apply Rinv_0_lt_compat; assumption); assumption).
+    rewrite (ln_mult 2 PI), (ln_mult (2 * lam)), (ln_mult 2 lam), ln_Rinv by (try lra; try (apply Rinv_0_lt_compat; assumption); assumption).
+    fold (Rdiv lam V). fold t. rewrite HtA. unfold t, Rdiv. rewrite ln_mult, ln_Rinv by (try assumption; apply Rinv_0_lt_compat; assumption).
+    field.
+Qed.
